@@ -8,6 +8,7 @@ import (
 
 	gno "github.com/gnolang/gno/gnovm/pkg/gnolang"
 	"github.com/gnolang/gno/gnovm/pkg/test"
+	tmerrors "github.com/gnolang/gno/tm2/pkg/errors"
 	"github.com/gnolang/gno/tm2/pkg/store"
 
 	rk "gnoverif/runtxkit"
@@ -100,7 +101,14 @@ func classifyGnoPanic(r any) string {
 	case *gno.PreprocessError:
 		return classifyGnoPanic(x.Unwrap())
 	case error:
+		// the store loader re-panics a recovered panic wrapped by tm2/pkg/errors
+		if _, isOOG := tmerrors.Cause(x).(store.OutOfGasError); isOOG {
+			return "oog"
+		}
 		if strings.Contains(x.Error(), "out of gas") {
+			if os.Getenv("VERIF_TRACE") != "" {
+				fmt.Fprintf(os.Stderr, "wrapped out-of-gas: %T %v\n", r, firstLine(x.Error()))
+			}
 			return "oog-wrapped"
 		}
 		return "error:" + firstLine(x.Error())
